@@ -2,29 +2,28 @@
 C18 — the Python boundary of the interpreter as a state machine over the core-language evaluator.
 
 Anchors: `fpy2/interpret/byte.py` (`BytecodeInterpreter.eval(convert=True)`, `func_cache`,
-`BytecodeCompiler.compile`: free variables are converted ONCE, at compile time, into the namespace of the
-compiled function), `fpy2/interpret/value.py` (`to_value`: containers rebuilt unconditionally;
-`from_value`: containers rebuilt "only when needed", i.e. a list of `Float`s is handed out as the very
-object the interpreter holds).
+`BytecodeCompiler.compile`: free variables are converted once, at compile time, into the namespace of the
+compiled function; one that holds a list is kept under a fresh symbol and `_visit_function` copies it into
+a local at EVERY activation -- commit 20fad08), `fpy2/interpret/value.py` (`to_value` and, since commit
+1c6f5b2, `from_value`: containers rebuilt unconditionally).
 
 Two levels.
 
-* HEAP LEVEL (`toValue`, `fromValue`, `callBoundary`): CPython has ONE heap shared by the caller and the
+* HEAP LEVEL (`toValue`, `exitValue`, `callBoundary`): CPython has ONE heap shared by the caller and the
   interpreter.  A call copies every argument list to a fresh cell (`to_value`), runs `callEntry` on the
-  copies and returns a value whose lists are heap references (`from_value` does not copy a list that
-  already has boundary form).  `Props/C18.lean` proves that the cells that existed before the call are
-  not written (`args_untouched`) and that every list reachable from the result is a cell that did not
-  exist before the call (`result_fresh`).
+  copies and converts the result (`from_value`: `rebuild`).  `Props/C18.lean` proves that the cells that
+  existed before the call are not written (`args_untouched`) and that every list reachable from the result
+  is a cell that did not exist before the call (`result_fresh`).
 * PROCESS LEVEL (`State`, `Op`, `step`, `run`, threads): what survives between calls is the cache
   `FuncDef identity ↦ compiled function`, and a compiled function owns the cells of the free variables it
-  captured (`Compiled.heap`, `Compiled.genv`: heap references!).  A call allocates the (by-value)
-  arguments behind those cells, runs the body with the captured environment under the parameters, and
-  -- faithfully -- keeps every write to a captured cell and hands out references to captured cells.
-  The cells a call allocates are dropped when the compiled function captured no list: nothing that
-  persists can reach them (that is exactly `args_untouched` + `result_fresh`), Python frees them.
-  `Policy` switches the two design points of F7/F8 (`Policy.current` = the code as it is; `Prog.policy`
-  defaults to it); `Props/C18.lean` proves that `Policy.fixed` restores history independence for EVERY
-  module.
+  captured (`Compiled.heap`, `Compiled.genv`).  A call copies those cells (`activationEnv`), allocates the
+  (by-value) arguments behind them, runs the body with the copied environment under the parameters and
+  drops every cell it allocated: nothing that persists can reach them (that is exactly `args_untouched` +
+  `result_fresh`, and `ResultsOK` in `Proof/BoundaryProc.lean`), Python frees them.
+  `Policy` records the two design points of the repaired findings F7/F8: `Policy.current` is the code as it
+  is (`Prog.policy` defaults to it); `Policy.legacy` is the code before the repairs -- captured cells shared
+  by all calls, writes to them kept, internal lists handed out -- kept so that `Props/C18.lean` can show the
+  property FAILS for it (`legacy_…_counterexample`): an edit that goes back breaks the correspondence check.
 
 NOT modelled: writes that happened before an exception (the model keeps the old cells), free variables of
 callees (a callee runs with its parameters only, as in `Fpy.Lang.evalE`), a Python caller that mutates a
@@ -151,21 +150,22 @@ end
 
 /-! ## the two design points the findings F7 / F8 are about -/
 
-/-- `copyCaptured`: a captured list is copied into fresh cells at every activation (proposed fix of F7;
-the code of /repo converts it once, at compile time, and every call shares those cells).
-`rebuildResult`: `from_value` rebuilds every container (proposed fix of F8; the code of /repo returns a
-list that already has boundary form as the very cell the interpreter holds). -/
+/-- `copyCaptured`: a captured list is copied into fresh cells at every activation (the code since commit
+20fad08, which repaired F7; before it the list was converted once, at compile time, and every call shared
+those cells).  `rebuildResult`: `from_value` rebuilds every container (the code since commit 1c6f5b2, which
+repaired F8; before it a list that already had boundary form was returned as the very cell the interpreter
+holds). -/
 structure Policy where
   copyCaptured : Bool
   rebuildResult : Bool
 
-/-- the code of /repo as it is -/
-def Policy.current : Policy := { copyCaptured := false, rebuildResult := false }
-/-- with /var/tmp/patches/F7.diff and F8.diff applied -/
-def Policy.fixed : Policy := { copyCaptured := true, rebuildResult := true }
+/-- the code of /repo as it is (F7 and F8 repaired) -/
+def Policy.current : Policy := { copyCaptured := true, rebuildResult := true }
+/-- the code before the repairs: capture once and share afterwards, hand out internal lists -/
+def Policy.legacy : Policy := { copyCaptured := false, rebuildResult := false }
 
 mutual
-/-- `from_value` that rebuilds every container (F8 fix) -/
+/-- `from_value` as it is now: every container is rebuilt -/
 def rebuild : Nat → Val → Heap → M (Val × Heap)
   | 0, _, _ => .error .outOfFuel
   | _ + 1, .num (.q n d), μ => .ok (.num (NV.ofRat n d), μ)
@@ -254,8 +254,8 @@ def compile (P : Prog) (fuel : Nat) (d : FuncDef) : M Compiled := do
 def callCtx (d : FuncDef) (ctx : Option Ctx) : Ctx :=
   match d.ctx with | some c => c | none => (match ctx with | some c => c | none => fp64)
 
-/-- the captured environment an activation sees: the compile-time cells themselves, or (F7 fix) fresh
-copies of them behind the compile-time cells -/
+/-- the captured environment an activation sees: fresh copies of the compile-time cells behind them, or
+(legacy) the compile-time cells themselves -/
 def activationEnv (fuel : Nat) (c : Compiled) : M (Env × Heap) :=
   if c.policy.copyCaptured then do
     let (vals, h) ← copyIns c.heap fuel (c.genv.map (·.2)) c.heap
